@@ -175,3 +175,16 @@ Theorem C04_checked_propagate_complete : forall db xs level asserts units st st'
   (forall x, In x (asserts ++ units) -> plit_true st' (fst x) = true) /\
   Inv2 (fun id => In id xs) st' /\ WComp (ps_watch st') (ps_lists st').
 Proof. exact checked_propagate_complete. Qed.
+
+(* ---- the unreachable!() of decide, at the level of the solver model (Cdcl/SolverCover.v): in a state that
+   satisfies the invariants of the model -- structural (SInv), every clause looked after (KInv), the
+   completeness invariant of propagate (CInv) -- with every entry propagated and the assertions in force
+   (Done: what a call of propagate that ends without conflict establishes), an empty exempt set (which is
+   what the runs without soft requirements keep: g_run_loop) and the root installed, decide does not reach its
+   unreachable!(): that would need a falsified Requires clause, and there no clause of the database is
+   falsified ---- *)
+From Resolvo Require Import Cdcl.SolverCover.
+Theorem C04_solver_model_decide_no_panic_by_invariants : forall U P A a_ge (st : sstate A),
+  SInv U P A st -> KInv A st -> CInv A st -> Done A st -> s_born st = [] -> Rooted (ps_trail (s_ps st)) ->
+  decide U (a_ge (s_act st)) (s_db st) (tr_lits st) <> None.
+Proof. exact decide_no_panic_at. Qed.
